@@ -36,6 +36,57 @@ func judgeStageEnv(sc *Scenario, x *vrt.Execution) []verdict {
 	return v
 }
 
+// overlapUnits (C04 on the real runner): 2-3 independent tasks, directly in parallel and as pipeline
+// stages, without a context, in one shared context with up/before/after hooks, and in two contexts.
+func overlapUnits(res *common.Result, each func(Scenario, int) bool) bool {
+	gen := func(nmax int, bound func(n int) int) {
+		for n := 2; n <= nmax; n++ {
+			for _, mode := range []string{"par", "pipeline"} {
+				for _, ctx := range []string{"", "one", "two"} {
+					for _, hooks := range []bool{false, true} {
+						sc := Scenario{Mode: mode, Overlap: true}
+						if ctx != "" {
+							sc.Ctxs = []CtxCfg{{Name: "c1", Up: []string{"up1:c1"}, Before: []string{"cb:c1"}, After: []string{"ca:c1"}}}
+							if ctx == "two" {
+								sc.Ctxs = append(sc.Ctxs, CtxCfg{Name: "c2", Before: []string{"cb:c2"}})
+							}
+						}
+						for i := 0; i < n; i++ {
+							t := stdTask([]string{"p", "q", "r"}[i], 0, 1, false)
+							if hooks {
+								t = stdTask(t.Name, 1, 1, true)
+							}
+							if ctx != "" {
+								t.Ctx = "c1"
+								if ctx == "two" && i%2 == 1 {
+									t.Ctx = "c2"
+								}
+							}
+							sc.Tasks = append(sc.Tasks, t)
+						}
+						if each(sc, bound(n)) {
+							return
+						}
+					}
+				}
+			}
+		}
+	}
+	switch *common.Unit {
+	case "overlap-q":
+		res.Bound = 1
+		theSeam.park = true
+		gen(3, func(n int) int { return map[int]int{2: 1, 3: 0}[n] })
+	case "overlap-t":
+		res.Bound = 2
+		theSeam.park = true
+		gen(3, func(n int) int { return map[int]int{2: 2, 3: 1}[n] })
+	default:
+		return false
+	}
+	return true
+}
+
 func stageEnvUnits(res *common.Result, each func(Scenario, int) bool) bool {
 	mk := func(name, ctx string, own bool, deps ...string) TaskCfg {
 		t := TaskCfg{Name: name, FailAt: -1, Ctx: ctx, Reads: "STAGEVAR", Deps: deps}
